@@ -394,6 +394,9 @@ func (fr *Frame) binop(x *ssa.BinOp, st *State, g string) {
 		fr.vals[x] = SV{t: fr.f64round(fr.name(x), exact, app("is_int", exact)), typ: x.Type()}
 		return
 	}
+	if !ok && fr.floatMulConst(x, a, b) { // ext_float.go: float64 * positive constant
+		return
+	}
 	if !ok {
 		// floats etc.
 		fc.unsupported("arithmetic on " + x.Type().String())
@@ -549,6 +552,7 @@ func (fr *Frame) convert(x *ssa.Convert, st *State, g string) {
 		n := app("strlen", v.t)
 		fc.assume("true", eq(app("str_of_bytes", blk, "0", n), v.t))
 		fc.emit(fmt.Sprintf("(assert (forall ((i Int)) (! (=> (and (<= 0 i) (< i %s)) (= (select %s i) (strat %s i))) :pattern ((select %s i)))))", n, blk, v.t, blk))
+		fc.strToBytesFact(blk, n, v.t) // ext_bytesalgebra.go
 		fr.setVal(x, "Slice", mkSlice(pt, "0", n, n))
 	case tok && tb.Info()&types.IsString != 0:
 		if _, isSl := from.(*types.Slice); isSl {
@@ -556,6 +560,7 @@ func (fr *Frame) convert(x *ssa.Convert, st *State, g string) {
 			blk := app("select", fc.comp(st, k, s), sarr(v.t))
 			fr.setVal(x, "Str", app("str_of_bytes", blk, soff(v.t), slen(v.t)))
 			fc.assume("true", eq(app("strlen", fr.vals[x].t), slen(v.t)))
+			fc.bytesToStrFact(blk, soff(v.t), slen(v.t), fr.vals[x].t) // ext_bytesalgebra.go
 			return
 		}
 		fc.unsupported("conversion to string from " + x.X.Type().String())
@@ -563,6 +568,9 @@ func (fr *Frame) convert(x *ssa.Convert, st *State, g string) {
 	default:
 		if tc.sortOf(x.X.Type()) == tc.sortOf(x.Type()) && !(fok && fb.Info()&types.IsFloat != 0) && !(tok && tb.Info()&types.IsFloat != 0) {
 			fr.vals[x] = SV{t: v.t, typ: x.Type()}
+			return
+		}
+		if fr.floatToInt(x, v) { // ext_float.go: float64 -> integer truncates toward zero when in range
 			return
 		}
 		fc.unsupported("conversion " + x.X.Type().String() + " -> " + x.Type().String())
